@@ -108,11 +108,11 @@ class NxscopeHandler:
 
             with self._queue_lock:
                 # send all samples at once
-                for data.chan in range(chmax):
-                    if len(samples[data.chan]) > 0:
+                for chan in range(chmax):
+                    if len(samples[chan]) > 0:
                         # send for all subscribers
-                        for que in self._sub_q[data.chan]:
-                            que.put(samples[data.chan])
+                        for que in self._sub_q[chan]:
+                            que.put(samples[chan])
 
     def _reset_stats(self) -> None:
         self._ovf_cntr = 0
